@@ -76,6 +76,7 @@ class StreamItemQueue:
         self._producer_parked = False
         self._producer_cancelled = False
         self._pending_futures: set[Future[WorkResult]] = set()
+        self._head: Any = None  # the entry taken from the queue to be delivered next
         self._aborted = False
         self._finished = False
         self._stopped = False
@@ -137,16 +138,20 @@ class StreamItemQueue:
         self._start()
         self._started.set()
         entries = self._entries
-        held: Any = None
         while True:
-            entry = await entries.get() if held is None else held
-            held = None
+            # The head entry is kept on the queue object while it is awaited, so
+            # that it can still be discarded when the queue is aborted meanwhile.
+            if self._head is None:
+                self._head = await entries.get()
+            entry = self._head
             if isfuture(entry):
                 try:
                     entry = await entry
                 except Exception:
+                    self._head = None
                     await self._cleanup()
                     raise
+            self._head = None
             if entry is _END:
                 self._stopped = True
                 return
@@ -161,18 +166,18 @@ class StreamItemQueue:
                 if next_entry is _END:
                     # allow peeking ahead to see that the stream has stopped
                     self._stopped = True
-                    held = next_entry  # finish after delivering this batch
+                    self._head = next_entry  # finish after delivering this batch
                     break
                 if isinstance(next_entry, _ErrorEntry) or (
                     isfuture(next_entry) and not next_entry.done()
                 ):
-                    held = next_entry  # deliver the current batch first
+                    self._head = next_entry  # deliver the current batch first
                     break
                 if isfuture(next_entry):
                     try:
                         next_entry = next_entry.result()
                     except Exception:
-                        held = next_entry  # re-raise when delivered as head
+                        self._head = next_entry  # re-raise when delivered as head
                         break
                 batch.append(next_entry)
             yield batch
@@ -212,10 +217,12 @@ class StreamItemQueue:
         """
         entries = self._entries
         while True:
-            try:
-                entry = entries.get_nowait()
-            except QueueEmpty:
-                break
+            entry, self._head = self._head, None
+            if entry is None:
+                try:
+                    entry = entries.get_nowait()
+                except QueueEmpty:
+                    break
             if isfuture(entry):
                 # also retrieve the exception of a failed item future
                 if not entry.done() or entry.cancelled() or entry.exception():
